@@ -69,9 +69,18 @@ fn parse_header(header: &str) -> Result<Header, ParseError> {
             })
         }
         Some(UNKNOWN) => {
-            while iterator.next_if(|&s| s != NEWLINE).is_some() {}
-
-            Addresses::Unknown
+            // Everything up to the carriage return is ignored, so only what follows it decides the outcome.
+            return match header
+                .find(CARRIAGE_RETURN)
+                .map(|index| &header[index + CARRIAGE_RETURN.len_utf8()..])
+            {
+                Some(NEWLINE) => Ok(Header {
+                    header: Cow::Borrowed(header),
+                    addresses: Addresses::Unknown,
+                }),
+                Some(suffix) if !suffix.is_empty() => Err(ParseError::InvalidSuffix),
+                _ => Err(ParseError::MissingNewLine),
+            };
         }
         Some(protocol) if protocol.is_empty() && iterator.peek().is_none() => {
             return Err(ParseError::MissingProtocol)
